@@ -100,6 +100,31 @@ pub fn gen_case(run_seed: u64, tier: Tier) -> ThrCase {
     }
 }
 
+/// A purity-only scenario (no concurrent phase): larger structures, more queries, queries aimed at the places where
+/// the data makes a search path long (run boundaries, first / last occurrence). Cheap, so there are many of them.
+pub fn gen_seq_case(run_seed: u64, tier: Tier) -> ThrCase {
+    let mut rng = stream(run_seed, "workload");
+    let spec = match rng.below(15) {
+        0 => crate::spec::gen_big_spec_pub(&mut rng, tier),
+        1 => Spec::Bits {
+            kind: *rng.pick(&[crate::ds::Flat::RSWide, crate::ds::Flat::RSWide, crate::ds::Flat::RSNarrow, crate::ds::Flat::DArray, crate::ds::Flat::DArray0]),
+            bits: crate::spec::gen_long_run_bits(&mut rng),
+        },
+        _ => gen_spec(&mut rng, Tier::Thorough),
+    };
+    ThrCase {
+        prefetch_heavy: false,
+        spec,
+        qseed: stream(run_seed, "queries").next_u64(),
+        n_queries: rng.urange(120, 400),
+        threads: 2,
+        sched: SchedKind::Random,
+        sched_seed: 0,
+        iterations: 0,
+        replay_schedule: None,
+    }
+}
+
 fn sig(family: &str, op: &str, class: &str, shape: &str) -> Sig {
     Sig {
         property: "C18".into(),
@@ -315,7 +340,7 @@ pub fn exec(case: &ThrCase) -> RunOut {
         // the threads share a value nobody has queried yet (a second, identical construction), so that anything
         // done lazily on first use happens under the scheduler; the expected answers come from `x`
         let fresh = catch(|| incarnate(&case.spec, life).0);
-        let skip_shuttle = std::env::var("QSIM_NO_SHUTTLE").is_ok();
+        let skip_shuttle = std::env::var("QSIM_NO_SHUTTLE").is_ok() || case.iterations == 0;
         if skip_shuttle {
             out.count("shuttle_phase_skipped", 1);
         }
